@@ -382,7 +382,37 @@ def search_convention(m):
     return "halfopen" if convs == {"halfopen"} else "closed"
 
 
+def r01_5_joins(ctx, m):
+    """Intervals are joined only by the merge function (which tests that they touch): an interval put together in the converter
+    itself from the start of one node's interval and the end of another's — a fast path for "the walk is one stretch" —
+    also covers whatever lies between them on the contig (an alternative allele of the same length, an inverted inner node)."""
+    g = m.to_stable[0]
+    from .c09 import guards_of
+
+    for c in walk_own(g.node):
+        if not isinstance(c, (ast.Call, ast.Tuple, ast.List)):
+            continue
+        args = c.args if isinstance(c, ast.Call) else c.elts
+        starts = {norm(a.value) for a in args if isinstance(a, ast.Attribute) and a.attr == "start" and isinstance(a.value, (ast.Name, ast.Subscript))}
+        ends = {norm(a.value) for a in args if isinstance(a, ast.Attribute) and a.attr == "end" and isinstance(a.value, (ast.Name, ast.Subscript))}
+        if not (starts and ends and not (starts & ends)):
+            continue
+        st_ = None
+        for s2 in walk_stmts(g.node.body):
+            if not isinstance(s2, (ast.If, ast.For, ast.While, ast.With, ast.Try)) and any(x is c for x in ast.walk(s2)):
+                st_ = s2
+        touching = False
+        for t_, pol_ in guards_of(g.node, st_) if st_ is not None else []:
+            for q in ast.walk(t_):
+                if isinstance(q, ast.Compare) and len(q.ops) == 1 and isinstance(q.ops[0], ast.Eq) and isinstance(q.left, ast.Attribute) and isinstance(q.comparators[0], ast.Attribute) and {q.left.attr, q.comparators[0].attr} == {"start", "end"}:
+                    touching = True  # `a.end == b.start`: an adjacency test of its own, not decided here
+        if touching:
+            continue
+        ctx.violated("R01.5", g.where(c), f"`{norm(c)[:80]}` joins the start of one node's interval with the end of another's inside the converter, without the merge function's test that consecutive intervals touch: a walk that leaves the contig in between (an alternative allele of the same length `>s1>s5>s3`, an inverted inner node, a deletion edge) becomes one interval that spells other bases", key_of(g, f"join-without-adjacency:{norm(c)[:50]}"))
+
+
 def r01_5(ctx, m):
+    ctx.run(r01_5_joins, m, _independent=True)
     f, rec, n = m.to_stable
     call = m.merge_call
     # the loop containing the merge call
@@ -505,6 +535,16 @@ def r01_3(ctx, m):
     tags = m.extras["tags_attr"]
     for which in (m.to_stable, m.to_unstable):
         f, rec, st, out = converter_templates(ctx, m, which)
+        # the optional fields are read for the output after the reversed CIGAR has been stored among them: a list of the
+        # fields that is put together before that store still carries the old CIGAR
+        base_ = f"{rec}.{tags}"
+        stores_ = [s_ for s_ in walk_stmts(f.node.body) if isinstance(s_, ast.Assign) and isinstance(s_.targets[0], ast.Subscript) and norm(s_.targets[0].value) == base_ and "cg" in norm(s_.targets[0].slice)]
+        for s_ in stores_:
+            for x_ in walk_own(f.node):
+                it_ = x_.iter if isinstance(x_, (ast.For, ast.comprehension)) else None
+                if it_ is not None and norm(it_) in (base_, base_ + ".items()", base_ + ".keys()", base_ + ".values()") and f.before(x_ if isinstance(x_, ast.For) else it_, s_):
+                    ctx.violated("R01.3", f.where(it_), f"the optional fields are collected (`{norm(it_)[:40]}`) before `{norm(s_)[:50]}` puts the reversed CIGAR among them: when the strand flips, the record is written with the CIGAR in its old direction (visible for every CIGAR that is not a palindrome)", key_of(f, "tags-read-before-cigar-store"))
+                    break
         bad = None
         n = 0
         n_flip = 0
